@@ -807,13 +807,16 @@ func (x *c10env) failureCases(garbage string) []c10fail {
 			i.Deb.Signature.KeyFile, i.Deb.Signature.KeyID = x.key("privkey_unprotected.asc"), c10ptr("not-hex")
 		})
 	}
-	bogus := func(name string, desc map[string]any, f func(*nfpm.Info, *int)) {
-		desc["method"], desc["type"] = "debsign", "bogus"
+	bogusT := func(typ, name string, desc map[string]any, f func(*nfpm.Info, *int)) {
+		desc["method"], desc["type"] = "debsign", typ
 		cs = append(cs, c10fail{"deb", name, "/debsign", false, map[string]any{"deb.signature": desc}, func(info *nfpm.Info, calls *int) {
-			info.Deb.Signature.Type = "bogus"
+			info.Deb.Signature.Type = typ
 			f(info, calls)
 		}})
 	}
+	bogus := func(name string, desc map[string]any, f func(*nfpm.Info, *int)) { bogusT("bogus", name, desc, f) }
+	// `builder` is the role dpkg-sig signs with by default; debsign knows origin, maint and archive only
+	bogusT("builder", "dpkg-sig-role-as-debsign-type", map[string]any{"key_file": "privkey_unprotected.asc"}, func(i *nfpm.Info, _ *int) { i.Deb.Signature.KeyFile = x.key("privkey_unprotected.asc") })
 	bogus("bogus-type", map[string]any{"key_file": "privkey_unprotected.asc"}, func(i *nfpm.Info, _ *int) { i.Deb.Signature.KeyFile = x.key("privkey_unprotected.asc") })
 	bogus("bogus-type-signfn", map[string]any{"sign_fn": "returns a blob"}, func(i *nfpm.Info, n *int) {
 		i.Deb.Signature.SignFn = func(r io.Reader) ([]byte, error) { *n++; return []byte("sig"), nil }
